@@ -1,7 +1,7 @@
 (* Uniform evaluation interface used by the correspondence harness: every model / spec function is
    reachable as  run fid args  over lists of integers, so the OCaml driver and the in-kernel
    cross-check are generic. *)
-From MS Require Import lib.Base gen.GenConst gen.GenCmd model.Frame model.Command model.Response model.Device spec.RefFrame.
+From MS Require Import lib.Base gen.GenConst gen.GenCmd model.Frame model.Command model.Response model.Device spec.RefFrame spec.RefAC.
 From RecordUpdate Require Import RecordSet.
 Import RecordSetNotations.
 Open Scope Z_scope.
@@ -178,5 +178,18 @@ Definition run_dev (fid : Z) (a : list (list Z)) : option out :=
     let w0 := mkWorld dev_init script (argn a 0) [] in
     let '(w, st) := do_ops w0 (arg a 1) in
     Some (st, enc_dev (w_dev w) ++ [[Z.of_N (w_counter w)]] ++ map cmd_body_z (w_sent w))
+  | _ => None
+  end.
+
+(* ---------------- reference AC codecs ---------------- *)
+Definition enc_request (q : request) : list Z :=
+  [boolz (q_power q); boolz (q_beep q); Z.of_N (q_mode q); Z.of_N (q_target q); Z.of_N (q_fan q); Z.of_N (q_swing q);
+   boolz (q_turbo q); boolz (q_follow_me q); boolz (q_eco q); boolz (q_purifier q); boolz (q_aux_heat q);
+   boolz (q_sleep q); boolz (q_fahrenheit q); Z.of_N (q_humidity q); boolz (q_freeze q); boolz (q_indep_aux q)].
+
+Definition run_refac (fid : Z) (a : list (list Z)) : option out :=
+  match fid with
+  | 30 => Some (match ref_decode_control (zb (arg a 0)) with Some q => ok [enc_request q] | None => (1, []) end)
+  | 31 => Some (of_res (set_state_body (ctrl_of (arg a 0))) (fun b => [bz b]))
   | _ => None
   end.
